@@ -2048,16 +2048,18 @@ pub fn generate_lvalue(tape: &[u32], cfg: &Cfg) -> Program {
         }
     };
     let oob = cfg.sw.runtime_errors;
+    // lists reached through a field are indexed with raw Rust indexing (known finding): no out-of-range there
+    let field_oob = cfg.sw.field_list_neg_index;
     // int leaf paths
     let leaf = |t: &mut Tape| -> (u32, Vec<Step>) {
         let rare_oob = oob && t.chance(1, 12);
         match t.below(9) {
             0 => (0, vec![Step::Field(1, 0), Step::Field(0, t.below(2))]),
             1 => (0, vec![Step::Field(1, 1)]),
-            2 => (0, vec![Step::Field(1, 2), Step::Index(Box::new(idx(t, 3, rare_oob)))]),
+            2 => (0, vec![Step::Field(1, 2), Step::Index(Box::new(idx(t, 3, rare_oob && field_oob)))]),
             3 => (1, vec![Step::Index(Box::new(idx(t, nb, rare_oob))), Step::Field(1, 1)]),
             4 => (1, vec![Step::Index(Box::new(idx(t, nb, rare_oob))), Step::Field(1, 0), Step::Field(0, t.below(2))]),
-            5 => (1, vec![Step::Index(Box::new(idx(t, nb, rare_oob))), Step::Field(1, 2), Step::Index(Box::new(idx(t, 3, rare_oob)))]),
+            5 => (1, vec![Step::Index(Box::new(idx(t, nb, rare_oob))), Step::Field(1, 2), Step::Index(Box::new(idx(t, 3, rare_oob && field_oob)))]),
             6 | 7 => (2, vec![Step::Index(Box::new(idx(t, 2, rare_oob))), Step::Index(Box::new(idx(t, 3, rare_oob)))]),
             _ => (3, vec![Step::Index(Box::new(idx(t, 3, rare_oob)))]),
         }
